@@ -797,8 +797,18 @@ def rule_direction(model):
     return r
 
 
-RULES = [rule_mutation, rule_stability, rule_predicate, rule_twins,
-         rule_direction]
+def _inl(rule):
+    """Run a rule on the view in which helpers that are new w.r.t. the
+    reference tree are inlined at their call sites (normalise.N2)."""
+    def run(model):
+        return rule(model.inlined_view())
+    run.__name__ = rule.__name__
+    return run
+
+
+INLINED_VIEW = False
+RULES_PLAIN = [rule_mutation, rule_stability, rule_predicate, rule_twins, rule_direction]
+RULES = [_inl(r_) for r_ in RULES_PLAIN] if INLINED_VIEW else RULES_PLAIN
 EXPLANATION = (
     'Flow-sensitive may-alias analysis of caller data against every '
     'mutating operation in DT_In/DT_InSV; keyed-sort query; predicate '
